@@ -2,7 +2,7 @@
 import z3
 from pyvc import vals as V
 from pyvc.spec import contract, inline, And, Or, Not, implies, ite, R
-from .common import dt_wf, whole_days, US_PER_DAY
+from .common import dt_wf, whole_days, US_PER_DAY, wdays, wdays_def
 from .country import COUNTRY_MODULES
 
 from .transactions import (TOL, tx_inv, tx_fmt, out_consistent, earning_spec, taxable_spec, need, cbc_field, taxable_value, ts, i_in, is_in, is_out, is_intra)
@@ -73,18 +73,28 @@ def _(k):
 
 @contract(GL + ".is_long_term_capital_gains", props=["C05", "C06", "C13", "C14"])
 def _(k):
+    def diff(s):
+        g = s.a.self
+        return ts(ev_of(g)).inst - ts(lot_of(g).some).inst
+
     def post(s):
         g = s.a.self
-        ev, lot = ev_of(g), lot_of(g)
-        d, ddef = whole_days(ts(ev), ts(lot.some))
         country = g.f("AbstractEntry.__configuration").f("Configuration.__country")
-        return implies(And(lot.not_none, ddef), s.result.t == threshold_reached(s, country, d))
+        return implies(lot_of(g).not_none, s.result.t == threshold_reached(s, country, wdays(s.ex, diff(s))))
+    # whole days elapsed = floor((instant(event) - instant(lot)) / 1 day): defining property of the spec function
+    k.define("whole_days", lambda s: implies(lot_of(s.a.self).not_none, wdays_def(s.ex, diff(s))))
     k.requires("valid", lambda s: valid_gain_loss(s, s.a.self))
     k.requires("country_wf", lambda s: country_wf(s, s.a.self.f("AbstractEntry.__configuration").f("Configuration.__country")))
     k.ensures("income_is_short_term", lambda s: implies(lot_of(s.a.self).is_none, s.result.t == False))
     k.ensures("long_iff_days_ge_threshold", post)
     k.raises_never("Exception")
     k.modifies()
+
+
+def gl_fig(ex, prop):
+    """Opaque name for a figure of a fraction (callers that only add figures up do not need the formula, DESIGN 'keep each query small').
+    Sound because a GainLoss and its transactions are immutable after construction: the figure is a function of the object."""
+    return ex.uf("GL_" + prop, V.Ref, z3.RealSort())
 
 
 def _figure(prop, f, label, props=("C04",), consistent=True):
@@ -94,6 +104,8 @@ def _figure(prop, f, label, props=("C04",), consistent=True):
         if consistent:
             k.requires("out_consistent", lambda s: out_consistent(s, ev_of(s.a.self)))
         k.ensures(label, lambda s: s.result.t == f(s, s.a.self))
+        k.define("named_" + label, lambda s: gl_fig(s.ex, prop)(s.a.self.t) == f(s, s.a.self))
+        k.ensures("named_" + label, lambda s: s.result.t == gl_fig(s.ex, prop)(s.a.self.t))
         k.raises_never("Exception")          # includes division by zero and the "Internal error" raises
         k.modifies()
 
